@@ -100,11 +100,24 @@ def run_config(ctx, rep, cfg):
             if ctxk is None:
                 continue
             ctx_t = ("ld", ctxk, 8)
-            for fr in direct_calls(cl, {"free"}):
+            # every release this cleanup performs, directly or through a helper (skinny_free-style wrappers):
+            # the summary carries the freed pointer translated into this function's terms
+            rel = {}
+            for ent in s.frees:
+                rel.setdefault(ent[0], ent)
+            for iid, (_, fterm, Af, fwhere, ffacts0, fsrc) in sorted(rel.items()):
+                fr = cl.insts[iid]
                 nfree += 1
                 site = cl.loc(fr)
-                Af = am.of(fr["ops"][0])
                 obj = Addr(("arg", 0), (Seg(ht, ctxk[1][0], None), Seg(None, 0, None)))
+                # the pointer handed to free() must have been fetched before anything wiped the place it lives in
+                if fsrc is not None:
+                    stale = [(l, w) for (l, w) in fsrc[1] if l.addr is not None and may_overlap(l, fsrc[0])]
+                    if stale:
+                        rep.violation("C15.R2", cons + ":stale", site, "the pointer given to free() is loaded from %s after that memory was overwritten (%s): free() receives the wiped value and the block is never released" %
+                                      (addr_str(fsrc[0].addr, prog), stale[0][1]), cfg=cn)
+                    else:
+                        rep.ok("C15.R2", cons + ":stale", site, "the freed pointer is fetched from %s before any write that could reach it" % addr_str(fsrc[0].addr, prog), cfg=cn)
                 # R2
                 if not init_info:
                     rep.inconclusive("C15.R2", cons, site, "no paired init in unit %s for handle %s" % (unit, ht), cfg=cn)
@@ -124,7 +137,7 @@ def run_config(ctx, rep, cfg):
                                 found = t
                         if found is not None and found[0] == "p" and found[1][0] == ("heap", call["id"]) and found[1][1] == (0,):
                             rep.ok("C15.R2", cons, site, "free(ctx->%s): %s stores the allocation base there on every success path" %
-                                   (".".join(prog.describe(am.of(fr["ops"][0]).segs[1].ty or "", off) or [str(off)]), ini.name), cfg=cn)
+                                   (".".join(prog.describe(Af.segs[1].ty or "", off) or [str(off)]), ini.name), cfg=cn)
                         else:
                             rep.violation("C15.R2", cons, site, "free() takes the pointer stored at offset %d of the context, but %s does not store the allocation base there" % (off, ini.name),
                                           None if found is None else term_str(found, si.addr_reg, prog), cfg=cn)
@@ -159,7 +172,7 @@ def run_config(ctx, rep, cfg):
                     for p in ptrs:
                         a = am.of(p) if p[0] in ("i", "a") else None
                         if a is not None and a.root == ("arg", 0) and len(a.segs) >= 2 and a.segs[0].off == ctxk[1][0]:
-                            if i["op"] == "call" and i["callee"][0] == "f" and i["callee"][1] == "free":
+                            if i["op"] == "call" and i["id"] in rel:
                                 uaf = (i, "second free")
                             elif i["op"] in ("load", "store"):
                                 uaf = (i, "access")
@@ -168,10 +181,7 @@ def run_config(ctx, rep, cfg):
                 if uaf:
                     rep.violation("C15.R3", cons + ":after-free", cl.loc(uaf[0]), "the freed context is used after free(): %s" % uaf[1], cfg=cn)
                 # R5
-                facts = None
-                for (iid, t, a, w, ffacts) in s.frees:
-                    if iid == fr["id"]:
-                        facts = ffacts
+                facts = ffacts0
                 if facts is not None and ("ne", ctx_t, ("null",)) in facts:
                     rep.ok("C15.R5", cons, site, "free() only under obj->ctx != NULL; with R3 a second cleanup is a no-op", cfg=cn)
                 else:
@@ -227,8 +237,8 @@ def run(ctx, rep):
     for cfg in ctx.configs():
         ninit, nfree = run_config(ctx, rep, cfg)
         if cfg is None:
-            rep.floor("C15.R1", "allocating functions", ninit, 10)
-            rep.floor("C15.R2", "free() sites", nfree, 10)
+            rep.floor("C15.R1", "allocating functions", ninit, 6)
+            rep.floor("C15.R2", "release sites (free() directly or through a helper)", nfree, 6)
             n4 = sum(1 for o in rep.obs if o["rule"] == "C15.R4")
             rep.floor("C15.R4", "non-init public entry points on object handles", n4, 25)
         else:
